@@ -20,7 +20,13 @@ Alpha == {97, 233, 8364, 128512, NL}
 CoordCases(zzdummy) ==
   LET all == SetToSeq(UNION {[1..n -> Alpha] : n \in 0..N})
       pairs == SetToSeq(UNION {{<<i, k>> : k \in 0..Len(all[i])} : i \in DOMAIN all})
+      \* long lines: positions around the 128th, 256th and 4096th column, single- and multi-byte, also on a later line
+      long == << [i \in 1..300 |-> 97], [i \in 1..300 |-> IF i % 3 = 0 THEN 233 ELSE IF i % 7 = 0 THEN 128512 ELSE 97],
+                 [i \in 1..300 |-> IF i = 20 THEN NL ELSE 8364], [i \in 1..4200 |-> IF i % 2 = 0 THEN 233 ELSE 97] >>
+      lp == SetToSeq({<<i, k>> : i \in 1..3, k \in {0, 19, 20, 21, 126, 127, 128, 129, 130, 148, 149, 150, 255, 256, 257, 299, 300}}
+                     \cup {<<4, k>> : k \in {4095, 4096, 4097, 4200}})
   IN [x \in DOMAIN pairs |-> [e |-> "err", kind |-> "coord", chars |-> all[pairs[x][1]], k |-> pairs[x][2]]]
+     \o [x \in DOMAIN lp |-> [e |-> "err", kind |-> "coord", chars |-> long[lp[x][1]], k |-> lp[x][2]]]
 
 T == ndJsonDeserialize(IOEnv.TEMPLATES)[1]
 DocA == [t |-> "obj", o |-> <<[k |-> <<97>>, v |-> JArr(<<JInt(1), JInt(2)>>)]>>]
